@@ -180,6 +180,21 @@ def run(ctx: Ctx):
     probs += [gen_balanced_threshold(ctx.rng) for _ in range(ctx.n(60, 1200))]
     probs += [gen_loop_heating_direction(ctx.rng) for _ in range(ctx.n(60, 600))]
     probs += [gen_double_match_site(ctx.rng) for _ in range(ctx.n(30, 400))]
+    # fixed share: utilities whose optional input duty (heat_flow: existing plant duty, a pasted-back result) is filled in,
+    # on sites with a threshold zone (one side without demand) - no record may inherit a number typed into the input
+    for _ in range(ctx.n(40, 800)):
+        pr = c03.gen_util_problem(ctx.rng) if ctx.rng.random() < 0.5 else gen_balanced_threshold(ctx.rng)
+        if not pr["utilities"]:
+            pr["utilities"] = P.gen_utilities(ctx.rng, pr["streams"], kind="ladder")
+        for u in pr["utilities"]:
+            u["heat_flow"] = ctx.rng.choice([None, float(ctx.rng.randrange(1, 40) * 100), float(ctx.rng.randrange(1, 40) * 100)])
+        if ctx.rng.random() < 0.6:
+            # an only-hot and an only-cold zone beside the rest: each leaves one side of the ladder unused
+            hi = max(max(s["t_supply"], s["t_target"]) for s in pr["streams"]); lo = min(min(s["t_supply"], s["t_target"]) for s in pr["streams"])
+            pr["streams"] += [{"name": "ZH", "zone": "OnlyHot", "t_supply": hi - 5.0, "t_target": lo + 20.0, "heat_flow": float(ctx.rng.randrange(2, 30) * 50), "dt_cont": 5.0, "htc": 1.0},
+                              {"name": "ZC", "zone": "OnlyCold", "t_supply": lo + 5.0, "t_target": hi - 20.0, "heat_flow": float(ctx.rng.randrange(2, 30) * 50), "dt_cont": 5.0, "htc": 1.0}]
+        ctx.dist["input_utility_duty_filled"] += 1
+        probs.append(pr)
     for pr in probs:
         nz = len({s["zone"] for s in pr["streams"]})
         ctx.count({"kind": "service", "n_streams": len(pr["streams"]), "zones": sorted({s["zone"] for s in pr["streams"]}), "n_util": len(pr["utilities"])},
